@@ -20,8 +20,8 @@ CHECKS = [
     {
         "id": "C20", "engine": "E3", "design_ref": "DESIGN.md §4, §5 C20",
         "technique": "stateless model checking of the implementation: exhaustive enumeration of thread schedules with bounded preemptions (CHESS-style iterative context bounding) under a cooperative scheduler driven by sys.monitoring line/bytecode events",
-        "text": "For each harness (2-3 real threads performing the first deserialize / serialize / schema generation on fresh recursive, mutually recursive, generic, shared-member, converted and plain types) every schedule with <=1 preemption (quick) / <=2 preemptions on the shared-state core plus bytecode-level points on the recursion analysis (thorough) is executed on the real code; each thread's result and follow-up observations must equal the sequential baseline; failing schedules are replayed twice before being reported; replayed prefixes are validated entry by entry.",
-        "note": "Assumes CPython 3.12 GIL semantics (switches only between bytecodes, C-level dict/lru_cache operations atomic). Scheduling points only inside apischema's shared-state modules. Bounds: 2 threads (3 in one harness), <=2 preemptions. Randomised preemption (sampling) is not used.",
+        "text": "For each harness (2-3 real threads performing the first deserialize / serialize / schema generation — including two schema generations in the same direction — on fresh recursive, mutually recursive, generic, shared-member, converted and plain types) every schedule with <=1 preemption (quick) / <=2 preemptions on the shared-state core plus bytecode-level points on the recursion analysis (thorough) is executed on the real code; each thread's result and follow-up observations must equal the sequential baseline; failing schedules are replayed twice before being reported; replayed prefixes are validated entry by entry.",
+        "note": "Assumes CPython 3.12 GIL semantics (switches only between bytecodes, C-level dict/lru_cache operations atomic). Scheduling points: the lines of the modules owning shared state and of the visitors / factories around them, plus one configuration with a point at every line of every apischema module (no assumption on where shared state lives). Bounds: 2 threads (3 in one harness), <=2 preemptions. Randomised preemption (sampling) is not used.",
     },
     {
         "id": "C09", "engine": "E2", "design_ref": "DESIGN.md §3, §5 C09",
